@@ -6,7 +6,7 @@ out=[]
 for v in range(1,nv+1):
     out.append(f"var {v}"); cnt+=1
 for _ in range(n):
-    op=random.choice(["ite"]*4+["and","or","xor","not","constrain","restrict","compose","subst","itec","satcount"])
+    op=random.choice(["ite"]*4+["and","or","xor","not","constrain","restrict","compose","subst","itec","satcount","cube","cofcube","substm","onesat","paths"])
     h=lambda: random.randrange(cnt)
     if op=="ite": out.append(f"ite {h()} {h()} {h()}"); cnt+=1
     elif op in("and","or","xor","constrain","restrict"): out.append(f"{op} {h()} {h()}"); cnt+=1
@@ -14,5 +14,15 @@ for _ in range(n):
     elif op=="compose": out.append(f"compose {h()} {random.randint(1,nv)} {h()}"); cnt+=1
     elif op=="subst": out.append(f"subst {h()} {random.randint(1,nv)} {random.randint(0,1)}"); cnt+=1
     elif op=="itec": out.append(f"itec {h()} {h()} {h()}")
+    elif op in ("cube","cofcube","substm"):
+        vs=[v for v in range(1,nv+1) if random.random()<0.5]
+        lits=[(v if random.random()<0.5 else -v) for v in vs]
+        if op=="cube":
+            random.shuffle(lits); out.append("cube "+" ".join(map(str,lits))) if lits else out.append("cube"); cnt+=1
+        elif op=="cofcube": out.append(("cofcube %d "%h()+" ".join(map(str,lits))).strip()); cnt+=1
+        else:
+            random.shuffle(lits); out.append(("substm %d "%h()+" ".join(map(str,lits))).strip()); cnt+=1
+    elif op=="onesat": out.append(f"onesat {h()}")
+    elif op=="paths": out.append(f"paths {h()}")
     elif op=="satcount": out.append(f"satcount {h()} {random.choice([nv,nv+1,70])}")
 print("\n".join(out))
